@@ -19,7 +19,11 @@ let cfg_of (four : bool) (ap : String.t) : sconfig =
 
 let res_s (f : 'a -> String.t) (r : 'a res) : String.t = match r with Ok v -> f v | Err -> "E" | Panic -> "PANIC"
 
-let nlri_hex (n : nlri) : String.t = match compose_nlri n with Ok c -> hex_of_bytes c | _ -> "PANIC"
+let nlri_hex (n : nlri) : String.t =
+  match compose_nlri n with
+  | Ok c -> let (a, s) = fam_code n.n_fam in
+    Printf.sprintf "%d.%d%s~%s" (int_of_n a) (int_of_n s) (match n.n_pathid with Some _ -> "+" | None -> "") (hex_of_bytes c)
+  | _ -> "PANIC"
 let item_s (r : nlri res) : String.t = match r with Ok n -> nlri_hex n | Err -> "E" | Panic -> "PANIC"
 let items_s (l : nlri res list) : String.t =
   if List.exists (fun r -> r = Panic) l then "PANIC"
